@@ -47,6 +47,8 @@ def check_bed(spec, ctx):
         ctx.label("coding")
     if strand == "-":
         ctx.label("minus")
+    if any(blocks[i][1] == blocks[i + 1][0] for i in range(len(blocks) - 1)):
+        ctx.label("touching_blocks")
     name_sel = spec["name"]
     kw = dict(score=spec["score"], rgb=RGB(*spec["rgb"]), name=name_sel, chromosome_relative_coordinates=(mode == "chrom"))
     try:
@@ -72,7 +74,7 @@ def check_bed(spec, ctx):
     ctx.eq("blockCount_starts", d["count"], len(d["starts"]))
     ctx.eq("first_block_start_zero", d["starts"][0], 0)
     ctx.true("block_starts_ascending", all(a < b for a, b in zip(d["starts"], d["starts"][1:])), d["starts"])
-    ctx.true("blocks_do_not_overlap", all(d["starts"][i] + d["sizes"][i] <= d["starts"][i + 1] for i in range(len(d["starts"]) - 1)), [d["starts"], d["sizes"]])
+    ctx.true("blocks_do_not_overlap", all(d["starts"][i] + d["sizes"][i] <= d["starts"][i + 1] for i in range(min(len(d["starts"]), len(d["sizes"])) - 1)), [d["starts"], d["sizes"]])
     ctx.eq("last_block_reaches_end", d["starts"][-1] + d["sizes"][-1], d["end"] - d["start"])
     ctx.true("start_le_end", 0 <= d["start"] <= d["end"], [d["start"], d["end"]])
     ctx.true("sizes_positive", all(s > 0 for s in d["sizes"]), d["sizes"])
@@ -108,11 +110,11 @@ def check_bed(spec, ctx):
 def strat_bed(draw, tier="quick"):
     kind = draw(st.sampled_from(["tx", "tx", "feat"]))
     if kind == "tx":
-        obj = draw(S.transcript_spec(max_exons=5, max_len=9, frameshift_prob=30, start_max=12))
+        obj = draw(S.transcript_spec(max_exons=5, max_len=9, frameshift_prob=30, start_max=12, adjacent_exons=draw(st.booleans())))
         blocks = obj["exons"]
         names = ["transcript_symbol", "transcript_id", "guid", "my name", "protein_id"]
     else:
-        obj = draw(S.feature_spec(max_blocks=5, max_len=9, start_max=12))
+        obj = draw(S.feature_spec(max_blocks=5, max_len=9, start_max=12, adjacent_blocks=draw(st.booleans())))
         blocks = obj["blocks"]
         names = ["feature_name", "feature_id", "guid", "custom"]
     lo, hi = blocks[0][0], blocks[-1][1]
@@ -137,7 +139,7 @@ PROP = Prop(
     pid="C14",
     legs=[
         Leg("bed12", check_bed, strategy=strat_bed, examples=EX, n_quick=1500, n_thorough=15000,
-            must_hit=["chunk_relative&cs>0", "coding", "minus"],
+            must_hit=["chunk_relative&cs>0", "coding", "minus", "touching_blocks"],
             rule="transcripts (coding or not) and features of 1..5 blocks on both strands x parent {chunk containing the interval, whole chromosome, none} x export mode {chromosome, chunk-relative} x name selector x score x RGB; the text of the record is parsed by an independent 12-column reader"),
     ],
     rule="Oracle: BED12 format invariants + decoding back to blocks/strand/name/CDS bounds. Non-trivial: >=2 blocks and (chunk-relative with chunk start > 0, or coding).",
